@@ -87,7 +87,11 @@ Inductive case :=
       local: the queries the repository state shows to have been served (a list query, then one delta derived
       from the difference of the publisher's objects; an exchange that ended in an error: the list query), and
       as which publisher *)
-| CLocal8181 (pre : repo) (cl : caller) (qs : list query) (post : repo) (served_as : option handle).
+| CLocal8181 (pre : repo) (cl : caller) (qs : list query) (post : repo) (served_as : option handle)
+  (** one [ca_sync_parent] of a CA whose parent is the embedded trust anchor: the TA proxy's child table before and
+      after, the requests it shows to have been served (list; a request queued or a waiting response handed out,
+      per key), and as which child *)
+| CLocalTa (pre : taproxy) (cl : caller) (reqs : list req) (post : taproxy) (served_as : option handle).
 
 (** What the model may be given for an observed message: untouched bytes are intact; flipped bytes
     are not intact - unless they still decode to the identical content, in which case either. *)
@@ -112,6 +116,22 @@ Fixpoint local8181_run (rp : repo) (cl : caller) (qs : list query) : repo * opti
       (rp'', match who with Some h => Some h | None => match o with Served h _ => Some h | _ => None end end)
   end.
 
+Fixpoint ta_run (st : taproxy) (cl : caller) (reqs : list req) : taproxy * option handle :=
+  match reqs with
+  | [] => (st, None)
+  | r :: rest =>
+      let (st', o) := ta_local6492 st cl r in
+      let (st'', who) := ta_run st' cl rest in
+      (st'', match who with Some c => Some c | None => match o with Some _ => Some (cl_contact_child cl) | None => None end end)
+  end.
+
+Definition nb_eqb (a b : N * bool) : bool := (fst a =? fst b) && Bool.eqb (snd a) (snd b).
+Definition tachild_eqb (a b : tachild) : bool :=
+  (tc_id a =? tc_id b) && (tc_ent a =? tc_ent b) && amap_eqb uk_eqb (tc_used a) (tc_used b)
+  && amap_eqb Bool.eqb (tc_open_req a) (tc_open_req b) && amap_eqb Bool.eqb (tc_open_resp a) (tc_open_resp b)
+  && opt_eqb nb_eqb (tc_last a) (tc_last b).
+Definition ta_eqb (a b : taproxy) : bool := amap_eqb tachild_eqb (ta_children a) (ta_children b) && (ta_hist a =? ta_hist b).
+
 Definition agrees (c : case) : bool :=
   match c with
   | C6492 pre ua m corrupt same post out =>
@@ -124,6 +144,8 @@ Definition agrees (c : case) : bool :=
       let (st', w) := local_run pre cl reqs in parent_eqb st' post && opt_eqb N.eqb w who
   | CLocal8181 pre cl qs post who =>
       let (rp', w) := local8181_run pre cl qs in repo_eqb rp' post && opt_eqb N.eqb w who
+  | CLocalTa pre cl reqs post who =>
+      let (st', w) := ta_run pre cl reqs in ta_eqb st' post && opt_eqb N.eqb w who
   end.
 
 (** ** Oracle 1: [c12_ok] - acted upon => signed by the key registered for the claimed sender and
@@ -159,6 +181,11 @@ Definition c12_ok (c : case) : bool :=
       match who with
       | None => repo_eqb pre post                         (* refused: nothing changes at the repository *)
       | Some h => publisher_key_is pre h (cl_id cl)
+      end
+  | CLocalTa pre cl _ post who =>
+      match who with
+      | None => ta_eqb pre post                           (* refused: no queued request, no status entry *)
+      | Some c => match aget c (ta_children pre) with Some ch => tc_id ch =? cl_id cl | None => false end
       end
   end.
 
@@ -232,6 +259,9 @@ Definition c12_confined (c : case) : bool :=
       end
   | CLocal pre cl _ post _ => confined_for pre post (cl_contact_child cl)
   | CLocal8181 pre cl _ post _ => confined8181_b (cl_handle cl) pre post || repo_eqb pre post
+  | CLocalTa pre cl _ post _ =>
+      forallb (fun c' => (c' =? cl_contact_child cl) || opt_eqb tachild_eqb (aget c' (ta_children post)) (aget c' (ta_children pre)))
+              (keys_of (ta_children pre) (ta_children post))
   end.
 
 (** ** Oracle 3: [c12_reply] - replies are signed with the server side's current identity key
@@ -251,6 +281,7 @@ Definition c12_reply (c : case) : bool :=
       end
   | CLocal _ _ _ _ _ => true
   | CLocal8181 _ _ _ _ _ => true
+  | CLocalTa _ _ _ _ _ => true
   end.
 
 (** Indices of cases on which a predicate fails. *)
